@@ -1,4 +1,5 @@
 import Model.Queue
+import Model.QueueSpec
 /-!
 Line protocol of engine `queue`.
 
@@ -11,6 +12,12 @@ additionally performs one timed-out lap of the outer loop. Reply: one observable
   `next=<ids> ent=<n> fl=<n> ov=<n> done=<ids> closed=<0|1> joined=<0|1>`
 (`next` = push indices handed to the stream in order, `ent` = `next` calls entered, `fl` = `flush`
 calls (`*` when short), `done` = completed flush futures, sorted).
+
+`order <producers> <overflowed 0|1> <final 0|1> | <pushes p.k …> | <delivered p.k …>` — T-trace: evaluates
+`Queue.Spec.acceptOrder` (theorems `c01_spec_accepts`, `c09_spec_accepts`) on a recorded history; `-` = empty list.
+`barrier | <before p.k …> | <lost p.k …> | <calls n.p.k | f | r …>` — T-trace: evaluates `Queue.Spec.barrierAt`
+(theorem `c04_spec_accepts`) on the stream calls recorded up to the completion of a flush future.
+Both reply `accept` or `reject`.
 
 `hww <cap> <op> …` — the waker state machine alone. Ops `s` (send a flush signal) |
 `h:<d|t>:<count>` (`handle_waiting_wakers` with Drained / HitDeadline). Reply per op:
@@ -147,6 +154,48 @@ def runHww (cap : Nat) (ops : List String) : Option (List String) :=
       | some (w', r) => go w' ops (r :: acc)
   go ⟨[], 0, [], 0⟩ ops []
 
+/-! trace specifications -/
+
+def parseEnt (s : String) : Option Ent :=
+  match s.splitOn "." with
+  | [p, k] => do some ((← p.toNat?), (← k.toNat?))
+  | _ => none
+
+def parseEnts (ws : List String) : Option (List Ent) :=
+  match ws with
+  | ["-"] => some []
+  | _ => ws.mapM parseEnt
+
+def parseCall (s : String) : Option Obs :=
+  if s == "f" then some .flush
+  else if s == "r" then some .report
+  else match s.splitOn "." with
+    | ["n", p, k] => do some (.next ((← p.toNat?), (← k.toNat?)) .ok)
+    | _ => none
+
+def splitBar (ws : List String) : List (List String) :=
+  let rec go (ws : List String) (cur : List String) (acc : List (List String)) : List (List String) :=
+    match ws with
+    | [] => (cur.reverse :: acc).reverse
+    | w :: ws => if w == "|" then go ws [] (cur.reverse :: acc) else go ws (w :: cur) acc
+  go ws [] []
+
+def parseBool (s : String) : Option Bool :=
+  if s == "0" then some false else if s == "1" then some true else none
+
+def handleSpec (ws : List String) : String :=
+  match splitBar ws with
+  | [["order", n, ov, fin], pushes, deliv] =>
+    match n.toNat?, parseBool ov, parseBool fin, parseEnts pushes, parseEnts deliv with
+    | some n, some ov, some fin, some pushes, some deliv =>
+      if Spec.acceptOrder n pushes deliv ov fin then "accept" else "reject"
+    | _, _, _, _, _ => "bad-op"
+  | [["barrier"], before, lost, calls] =>
+    match parseEnts before, parseEnts lost, (if calls == ["-"] then some [] else calls.mapM parseCall) with
+    | some before, some lost, some calls => if Spec.barrierAt before lost calls then "accept" else "reject"
+    | _, _, _ => "bad-op"
+  | _ => "bad-op"
+
 def handle (line : String) : String :=
   match (line.trimAscii.toString.splitOn " ").filter (· ≠ "") with
   | "script" :: sh :: ops =>
@@ -162,6 +211,8 @@ def handle (line : String) : String :=
       | some rs => if rs.isEmpty then "-" else joinWith ";" rs
       | none => "bad-op"
     | none => "bad-op"
+  | "order" :: rest => handleSpec ("order" :: rest)
+  | "barrier" :: rest => handleSpec ("barrier" :: rest)
   | _ => "bad-op"
 
 end Driver.Queue
